@@ -27,6 +27,10 @@ import (
 type c20Quote struct {
 	Sat   int `json:"sat"`
 	Bytes int `json:"bytes"`
+	// Label: what the Fee objects handed to AddQuote carry in their own FeeType
+	// field: 0 the type they are filed under, 1 nothing, 2 the other type
+	// (AddQuote's first argument is what names the fee).
+	Label int `json:"fee_label,omitempty"`
 }
 
 type c20Flow struct {
@@ -55,6 +59,8 @@ type c20Flow struct {
 	OrdWide bool `json:"ord_wide_push,omitempty"`
 	// ExtraUTXOs: values of extra seller coins offered to the two-dummy bid acceptance (AcceptBid2DArgs.ExtraUTXOs)
 	ExtraUTXOs []uint64 `json:"extra_seller_utxos,omitempty"`
+	// Wallet: bit 0 the seller, bit 1 the buyer signs through the monitor's own bt.Unlocker instead of unlocker.Simple
+	Wallet int `json:"own_unlockers,omitempty"`
 }
 
 type c20Inscr struct {
@@ -65,6 +71,22 @@ type c20Inscr struct {
 	TailLens    []int   `json:"op_return_item_lens,omitempty"` // lengths of the enriched OP_RETURN items (overrides the default two-item tail)
 }
 
+// c20Wallet is a caller's own bt.Unlocker (an external wallet): it signs P2PKH
+// coins with exactly the SIGHASH flags it is handed.
+type c20Wallet struct{ key *bec.PrivateKey }
+
+func (w *c20Wallet) UnlockingScript(_ context.Context, tx *bt.Tx, params bt.UnlockerParams) (*bscript.Script, error) {
+	sh, err := tx.CalcInputSignatureHash(params.InputIdx, params.SigHashFlags)
+	if err != nil {
+		return nil, err
+	}
+	sig, err := w.key.Sign(sh)
+	if err != nil {
+		return nil, err
+	}
+	return bscript.NewP2PKHUnlockingScript(w.key.PubKey().SerialiseCompressed(), sig.Serialise(), params.SigHashFlags)
+}
+
 func p2pkhOf(priv *bec.PrivateKey) *bscript.Script {
 	h := crypto.Hash160(priv.PubKey().SerialiseCompressed())
 	return bscript.NewFromBytes(gen.P2PKH(h))
@@ -73,7 +95,14 @@ func p2pkhOf(priv *bec.PrivateKey) *bscript.Script {
 func mkQuote(q c20Quote) *bt.FeeQuote {
 	fq := bt.NewFeeQuote()
 	for _, t := range []bt.FeeType{bt.FeeTypeStandard, bt.FeeTypeData} {
-		fq.AddQuote(t, &bt.Fee{FeeType: t, MiningFee: bt.FeeUnit{Satoshis: q.Sat, Bytes: q.Bytes}, RelayFee: bt.FeeUnit{Satoshis: q.Sat, Bytes: q.Bytes}})
+		label := t
+		switch q.Label {
+		case 1:
+			label = ""
+		case 2:
+			label = map[bt.FeeType]bt.FeeType{bt.FeeTypeStandard: bt.FeeTypeData, bt.FeeTypeData: bt.FeeTypeStandard}[t]
+		}
+		fq.AddQuote(t, &bt.Fee{FeeType: label, MiningFee: bt.FeeUnit{Satoshis: q.Sat, Bytes: q.Bytes}, RelayFee: bt.FeeUnit{Satoshis: q.Sat, Bytes: q.Bytes}})
 	}
 	return fq
 }
@@ -127,6 +156,14 @@ func c20JudgeFlow(c *mon.Ctx, f *c20Flow) {
 	}
 	var sellerUnlocker bt.Unlocker = &unlocker.Simple{PrivateKey: seller}
 	var buyerUnlocker bt.Unlocker = &unlocker.Simple{PrivateKey: buyer}
+	if f.Wallet&1 != 0 {
+		sellerUnlocker = &c20Wallet{seller}
+	}
+	if f.Wallet&2 != 0 {
+		buyerUnlocker = &c20Wallet{buyer}
+	}
+	c.Count(fmt.Sprintf("C20:signers:seller-own-unlocker=%v:buyer-own-unlocker=%v", f.Wallet&1 != 0, f.Wallet&2 != 0))
+	c.Count(fmt.Sprintf("C20:fee-label-variant:%d", f.Quote.Label))
 	ordUTXO := &bt.UTXO{TxID: append([]byte{}, f.OrdTxID...), Vout: f.OrdVout, LockingScript: bscript.NewFromBytes(append([]byte{}, *ordScript...)), Satoshis: 1, Unlocker: &sellerUnlocker}
 	coins[outKey(ordUTXO.TxID, ordUTXO.Vout)] = c20Coin{1, append([]byte{}, *ordScript...)}
 	var utxos []*bt.UTXO
@@ -395,7 +432,7 @@ func lenClass(n int) int {
 func init() {
 	p := &mon.Property{
 		ID: "C20",
-		Rule: "Flows: listing and bid, standard and two-dummies variants, driven through the public ord API with PRNG keys for seller and buyer, prices {1, 2, 546, 10^3, 10^6, 10^9}, funding sets of 2-6 buyer UTXOs with the price-exceeding one at every position and totals on both sides of price + fee (computed from the quote so the threshold is hit), quotes {5/100, 1/1, 500/1000, 0/1, 3/7}, ordinal in a plain P2PKH or P2PKH-inscription output, change to P2PKH or to a non-standard script, seller paid to P2PKH or to a longer/shorter non-standard script; the listing is handed to the buyer re-parsed from wire bytes. For every completed transaction: every input executed by the interpreter (FORKID, after Genesis) against the coin it spends, seller's output unchanged at the seller's input index (listing flows), first-in-first-out offset of the ordinal satoshi computed independently must fall into the buyer's script, inputs - outputs >= floor(size x rate). " +
+		Rule: "Flows: listing and bid, standard and two-dummies variants, driven through the public ord API with PRNG keys for seller and buyer, prices {1, 2, 546, 10^3, 10^6, 10^9}, funding sets of 2-6 buyer UTXOs with the price-exceeding one at every position and totals on both sides of price + fee (computed from the quote so the threshold is hit), quotes {5/100, 1/1, 500/1000, 0/1, 3/7}, ordinal in a plain P2PKH or P2PKH-inscription output, change to P2PKH or to a non-standard script, seller paid to P2PKH or to a longer/shorter non-standard script; the listing is handed to the buyer re-parsed from wire bytes. Seller and buyer sign through unlocker.Simple or through the monitor's own bt.Unlocker (signs with exactly the flags it is handed); the Fee objects filed with AddQuote carry their own type, no type or the other type in their FeeType field. For every completed transaction: every input executed by the interpreter (FORKID, after Genesis) against the coin it spends, seller's output unchanged at the seller's input index (listing flows), first-in-first-out offset of the ordinal satoshi computed independently must fall into the buyer's script, inputs - outputs >= floor(size x rate). " +
 			"Inscriptions: content types and payloads of {0,1,75,76,255,256,65535,65536} bytes (and random lengths) inscribed and parsed back. " +
 			"distinct_nontrivial = distinct completed transactions on which every clause held, plus distinct inscription round trips.",
 		Assum: []string{"coins are identified by outpoint from the monitor's own records, never from what the returned transaction carries", "a flow that returns an error is 'not completed' and is not judged"},
@@ -404,7 +441,7 @@ func init() {
 	inscr := mon.Kind(p, "inscription", c20JudgeInscr)
 	p.Run = func(c *mon.Ctx) {
 		prices := []uint64{1, 2, 546, 1000, 1_000_000, 1_000_000_000}
-		quotes := []c20Quote{{5, 100}, {1, 1}, {500, 1000}, {0, 1}, {3, 7}}
+		quotes := []c20Quote{{Sat: 5, Bytes: 100}, {Sat: 1, Bytes: 1}, {Sat: 500, Bytes: 1000}, {Sat: 0, Bytes: 1}, {Sat: 3, Bytes: 7}}
 		flows := []string{"listing", "listing-2d", "bid", "bid-2d"}
 		c.Phase("flows")
 		N := uint64(6000)
@@ -428,6 +465,8 @@ func init() {
 				f.SellerLen = prng.Pick(r, []int{1, 26, 35, 71, 105, 300})
 			}
 			f.FundShare = prng.Pick(r, []int{0, 0, 0, 1, 2, 3})
+			f.Wallet = prng.Pick(r, []int{0, 0, 1, 2, 3, 3})
+			f.Quote.Label = prng.Pick(r, []int{0, 0, 1, 2})
 			f.OrdWide = f.OrdInscr && r.Chance(1, 4)
 			if f.OrdInscr && r.Chance(1, 5) { // inscriptions around and beyond the pre-Genesis script size limit
 				f.OrdDataLen = prng.Pick(r, []int{600, 9000, 9990, 12000, 70000})
